@@ -172,7 +172,8 @@ static void linebreak_check_after_write(int* cols_used, size_t* wrt,
     ++*args_written_this_line;
     // did we break the line length,
     // and this was not the first arg written in this line?
-    if(*cols_used > linelength && (*args_written_this_line > 1))
+    if(*cols_used > linelength && (*args_written_this_line > 1)
+       && isspace((unsigned char)*last_sep))
     {
         // insert "\n    "
         *last_sep = '\n';
